@@ -65,7 +65,12 @@ def descriptions(inp):
     # B3alt: another hierarchy whose dependencies have OTHER names (state kept from an earlier hierarchical parse would show)
     radio = gen.child_env(seq=41, extra={"suit-integrated-payloads": {"#radio.bin": "0c0d"}})
     b3alt = gen.minimal(env={"suit-integrated-dependencies": {"#radio.suit": radio, "#app.suit": gen.child_env(seq=42)}})
-    return {"B0": b0, "B1": b1, "B2": b2, "B3": b3, "B1alt": b1alt, "B3alt": b3alt, "child2": child2}
+    # B9: an application envelope of the OTHER SoC's default class (storage generation for two SoCs in one process)
+    b9 = gen.minimal(man={
+        "suit-manifest-component-id": ["INSTLD_MFST", {"RFC4122_UUID": {"namespace": "nordicsemi.com", "name": "nRF9280_sample_app"}}],
+        "suit-install": [{"suit-directive-override-parameters": {"suit-parameter-uri": "#fw"}}]},
+        env={"suit-integrated-payloads": {"#fw": "C0FFEE"}})
+    return {"B0": b0, "B1": b1, "B2": b2, "B3": b3, "B1alt": b1alt, "B3alt": b3alt, "B9": b9, "child2": child2}
 
 
 def prepare(inp):
@@ -82,7 +87,7 @@ def prepare(inp):
     from suit_generator.input_output import InputOutputMixin
     with open(os.path.join(inp, "child2.suit"), "wb") as fh:
         fh.write(InputOutputMixin.prepare_suit_data(copy.deepcopy(ds["child2"])))
-    for n in ("B0", "B1", "B2", "B3", "B1alt", "B3alt"):
+    for n in ("B0", "B1", "B2", "B3", "B1alt", "B3alt", "B9"):
         with open(os.path.join(inp, f"{n}.json"), "w", encoding="utf-8") as fh:
             json.dump(ds[n], fh)
         with open(os.path.join(inp, f"{n}.yaml"), "w", encoding="utf-8") as fh:
@@ -160,6 +165,14 @@ def op_boot(which):
                                                      "nrf54h20" if which == 1 else "nrf54h20")
         return _files(od)
     return f
+
+
+def op_boot_9280(inp, work):
+    from suit_generator import cmd_image
+    od = os.path.join(work, "boot9280")
+    os.makedirs(od, exist_ok=True)
+    cmd_image.ImageCreator.create_files_for_boot([os.path.join(inp, "B9.suit")], od, 0x0E1ED000, None, "nrf9280")
+    return _files(od)
 
 
 def op_update(inp, work):
@@ -293,6 +306,8 @@ OPS["parse-json-hier-alt"] = op_parse("json", True, "B3alt")
 OPS["parse-B2-yaml"] = op_parse("yaml", False, "B2")
 OPS["boot-1"] = op_boot(1)
 OPS["boot-2"] = op_boot(2)
+OPS["boot-nrf9280"] = op_boot_9280
+OPS["create-B9-yaml"] = op_create("B9", "yaml")
 OPS["update"] = op_update
 OPS["mpi-generate"] = op_mpi_generate
 OPS["mpi-merge"] = op_mpi_merge
